@@ -35,19 +35,24 @@ RULE = ("one evaluation = one catalogue call (function / ndarray method / operat
         "rule 2 (result is a unyt object commensurable with an input). distinct = (template id, shape class, dtype, unit family, "
         "rule); cases both runs refuse, and cases NumPy itself refuses on bare data, are counted but are no cells")
 ASSUMPTIONS = (
-    "trusted base: NumPy on bare data decides only whether a generated call is valid; vf.ref.uexpr + the dyadic atom table / vf.ref.defs give scale and dimension vector of the *printed* unit of a result (unyt's base_value is not used)",
-    "re-expression of the inputs is done by the harness, not by unyt: data * (scale_base/scale_variant) with a power-of-two ratio (dyadic pool; exact for floats, and for integers because the variant unit is the smaller one) or a ratio 100/1000/1e5 applied to integer- or quarter-valued data (ordinary units; exact)",
-    "dyadic covariance is bit-for-bit absent overflow/underflow: a mismatch is discarded (counted) when a raw magnitude leaves the safe exponent range of the leaf's float type, or, for integer data, when NumPy itself on the bare rescaled integers disagrees with NumPy on the same numbers as float64 (integer wrap-around is NumPy's)",
-    "ordinary-unit covariance is judged norm-wise: |difference| <= 4096 eps(narrowest float involved) x largest magnitude in the leaf; bare integer/boolean leaves exactly",
-    "functions whose definition refers to the number in the current unit are not covariant by construction and only rule 2 is judged for them (vf/gen/c07_meta.UNIT_RELATIVE: rounding to decimals/integers, casts to integer types, explicit conversions to plain Python/NumPy objects, byte-level access, text/pickle output)",
-    "a bare number passed where a quantity of an operand's dimension is meant (initial=3, clip(a, 1, 4), fill(3), constant_values=5, histogram range=(1, 8) ...) takes that operand's unit by unyt's documented idiom, so its meaning changes when the operand is re-expressed: such forms (c07_meta.bare_unit_position) and the catalogue's one-operand-bare forms are run and rule 2 is judged, but rule 1 is only noted (the mixing itself is C01's subject)",
-    "DESIGN 4.10: *_like prototypes do not derive values from their input: only rule 2 (class, unit presence, dimension) is judged; DESIGN 4.11: subok templates pass subok=True",
-    "a refusal (exception) in both runs is allowed by the property; a refusal in exactly one run is a covariance violation",
-    "rule 2 accepts, in a tuple result, integer/boolean leaves after the first one as index-like when the input data are float/complex (with integer input data such leaves are not judged); templates tagged mixed-result/product/index-like/untagged are judged by rule 1 only",
-    "slot '1' operands (must be dimensionless by the template) are never rescaled; offset and logarithmic units are excluded (DESIGN 1.10)",
-    "results of functions unyt declares unsupported are judged like any other when they return",
+    "trusted base: NumPy on bare data decides only whether a generated call is valid; vf.ref.uexpr + the dyadic atom table / vf.ref.defs give scale and dimension vector of the *printed* unit of a result (unyt's base_value and unyt's .to() are not used)",
+    "re-expression of the inputs is done by the harness, not by unyt: the numbers are multiplied in place (same memory layout in both runs) by scale_base/scale_variant, a power of two in the dyadic pool (exact for floats; integer data only when the ratio is an integer that fits the type) or 100/1000/1e5 applied to integer- or quarter-valued data (ordinary units; exact); cases in which the rescaling is not exact in the data type are discarded and counted",
+    "dyadic covariance is bit-for-bit absent overflow/underflow: a mismatch is discarded (counted) when a magnitude leaves the safe exponent range of the leaf's float type (incl. inf/nan or zero in one run only where the re-expressed counterpart is out of range), when the covariant integer answer does not fit the result's integer type, or, for integer data, when NumPy itself on the bare integers of either run disagrees with NumPy on the same numbers as float64 (wrap-around, integer rounding of means: NumPy's integer arithmetic)",
+    "where the two dyadic runs agree within 64 eps (norm-wise) but not bit-for-bit, NumPy is asked the same question on the bare numbers of both runs: if NumPy's own results are not related by one exact power of two per leaf (det = sign*exp(logdet), pow, log, exp ...) the last-bit difference is NumPy's and the case counts as held (noted per function); otherwise it is a violation of kind not-bit-exact",
+    "ordinary-unit covariance is judged norm-wise: |difference| <= 4096 eps(narrowest float involved) x largest magnitude in the leaf; bare integer/boolean leaves exactly; leaves LAPACK defines only up to sign/phase/order (eigenvectors, singular vectors, Q/R, unsorted eigenvalues) are compared with the dyadic pool only",
+    "functions whose definition refers to the number in the current unit are not covariant by construction and only rule 2 is judged for them (c07_meta.UNIT_RELATIVE: rounding to decimals/integers, astype, byte-level access, floor-division by a pure number, real_if_close); the same holds call-wise for casts to an integer dtype / casting='unsafe', for np.isclose/np.allclose without an explicit atol (NumPy adds 1e-8 of the current unit), and for histograms of a degenerate sample (NumPy widens the range by 0.5 of the current unit; the histogram family is therefore not driven with the all-zero draw)",
+    "explicit conversions to plain objects (__int__/__float__/__complex__/__index__, item, tolist, __array__, tobytes, getfield, dump(s), tofile, __reduce__, text) and explicit base-class requests (subok=False incl. NumPy's documented default of copy/broadcast_to/broadcast_arrays - DESIGN 4.11 -, view(np.ndarray), a bare out= buffer that is itself returned) are not judged by either rule",
+    "a bare number passed explicitly where a quantity of an operand's dimension is meant (initial=3, clip(a, 1, 4), fill(3), constant_values=5, range=(1, 8), x %= 2 ...; c07_meta.UNIT_POSITION_PARAMS by parameter name, catalogue forms named *bare*) takes that operand's unit by unyt's documented idiom, so its meaning changes when the operand is re-expressed: rule 1 is only noted for such calls (a bare zero is zero in every unit and is judged); defaults belong to the function and are judged (np.unwrap's default period)",
+    "an operand deliberately passed without unit (catalogue forms bare#k) is judged only where operands have independent dimensions (templates tagged product, and C07's own histogramdd/histogram2d/meshgrid forms with one plain coordinate): the plain operand is a pure number and stays as it is; elsewhere such calls mix a bare array into a unit position, which is C01's subject, and neither rule is judged",
+    "quantities put where NumPy expects indices or counts (bincount(x), unravel_index, ravel_multi_index) are run and noted, not judged: the statement speaks of inputs of a given dimension, an index has none",
+    "DESIGN 4.10: *_like prototypes and empty_like do not derive values from their input: only rule 2 (class, unit presence, dimension) is judged",
+    "rule 2 is applied to the catalogue's same-dimension tag except where the tag is too coarse (in-place multiplicative operators, callables deciding the dimension, np.where(cond) returning indices, sum-of-weights of np.average); in a tuple result integer/boolean leaves after the first one count as index-like when the input data are float/complex (with integer input data such leaves are not judged); a leaf that failed rule 2 is not reported again by rule 1",
+    "a refusal (exception) in both runs is allowed by the property; a refusal in exactly one run is a covariance violation; results of functions unyt declares unsupported are judged like any other when they return (keyed without the leaf index)",
+    "slot '1' operands (must be dimensionless by the template) are never rescaled; offset and logarithmic units are excluded (DESIGN 1.10); besides random data every template is driven with the all-zero input class (zero is the same quantity in every unit; unyt special-cases it)",
+    "np.unique_values leaves the order of its result unspecified: compared as multisets",
+    "mechanism key = C07:<function>[(<minimal set of optional parameters whose forms fail> | options)]:<failure kind>:<result leaf | out-buffer | operand#k>[:<data type class when float data do not show it>][:ordinary-units when the dyadic pool does not show it]; generic (no parenthesis) when the plain call form fails",
 )
-MIN_EVALS = 20000
+MIN_EVALS = 100000
 TIMEOUT = 3600
 
 # ------------------------------------------------------------------------------------------------ unit families
@@ -744,5 +749,9 @@ def extra(tier, seed, results):
         "unreached": {"wrappable_without_template": nc.without_template(),
                       "never_compared": sorted(set(funcs) - cmp_ - refused),
                       "refused_only": sorted(refused - cmp_)},
-        "not_judged_by_rule1": {"unit_relative_functions": sorted(meta.UNIT_RELATIVE), "bare_unit_position_parameters": sorted(meta.UNIT_POSITION_PARAMS)},
+        "classification_tables": {"explicit_conversions_not_judged": sorted(meta.EXPLICIT_BARE), "unit_relative_functions_rule2_only": sorted(meta.UNIT_RELATIVE),
+                                  "unit_position_parameters": sorted(meta.UNIT_POSITION_PARAMS), "index_position_forms": sorted("/".join(x) for x in meta.INDEX_POSITION_FORMS),
+                                  "rule2_exempt": sorted(meta.RULE2_EXEMPT_FUNCS) + sorted("/".join(x) for x in meta.RULE2_EXEMPT_FORMS) + sorted("/".join(x) for x in meta.RULE2_EXEMPT_LEAVES),
+                                  "own_templates": sorted(t.tid for t in nc.catalog() if "/c07:" in t.tid)},
+        "not_judged_counters": {k: v for k, v in sorted(counters.items()) if "not-judged" in k or k.startswith("discarded:")},
     }
